@@ -105,6 +105,8 @@ type c15Script struct {
 	// the authorization server the specification's behaviour ends up with: the location of the
 	// last FetchPRM step, or "fallback"
 	SpecAS string
+	// (steps the behaviour does not contain get defaults that let a flow that wrongly continues run
+	// to completion: dynamic registration succeeds, state/iss are as expected, the token endpoint answers)
 	// strict expectations
 	ExpReqs    [][]string
 	ExpResult  string
@@ -114,7 +116,7 @@ type c15Script struct {
 
 func c15Parse(id string, steps []c15Step) *c15Script {
 	s := &c15Script{ID: id, Ch: "hdr_https", Mcp: "https", PRM: map[string]string{}, ASM: map[string]c15ASMChoice{},
-		RC: "pre", P: "na", DCR: "201", St: "equal", Iss: "absent", Tok: "good", SpecAS: "fallback", ExpReqs: [][]string{}}
+		RC: "dcr", P: "na", DCR: "201", St: "equal", Iss: "absent", Tok: "good", SpecAS: "fallback", ExpReqs: [][]string{}}
 	for _, st := range steps {
 		a := st.Args
 		switch st.Name {
@@ -363,6 +365,11 @@ func (w *c15World) scriptURL(cls, tag string) string {
 
 func (w *c15World) loHost() string { return w.pick("127.0.0.1", "localhost", "[::1]", "127.0.0.9") }
 
+// notLoopback returns an authority on host that is not a loopback address but may look like one.
+func (w *c15World) notLoopback(host string) string {
+	return w.pick(host, host, "localhost."+host, "127.0.0.1."+host, "localhost@"+host, "127.0.0.1:80@"+host)
+}
+
 // RFC 8414 section 3 / OIDC discovery: the well-known locations of issuer iss
 func c15WellKnownASM(iss string) [][2]string {
 	u, err := url.Parse(iss)
@@ -421,7 +428,7 @@ func (w *c15World) asURL(cls, loc string, second, path bool) string {
 	case "lo":
 		u = "http://" + w.loHost() + ":" + map[string]string{"hdr": "9001", "path": "9002", "root": "9003"}[loc]
 	case "http":
-		u = "http://" + host
+		u = "http://" + w.notLoopback(host)
 	default:
 		return w.scriptURL(cls, host)
 	}
@@ -546,7 +553,7 @@ func (w *c15World) buildASM(loc string, ch c15ASMChoice, asked string) *c15Doc {
 		case "lo":
 			return "http://" + w.loHost() + ":7070/" + tag + "/" + name
 		case "http":
-			return "http://insecure.example.net/" + tag + "/" + name
+			return "http://" + w.notLoopback("insecure.example.net") + "/" + tag + "/" + name
 		}
 		return w.scriptURL(cls, tag+"/"+name)
 	}
@@ -655,7 +662,7 @@ func c15NewWorld(s *c15Script, seed uint64) *c15World {
 	case "lo":
 		w.origin = "http://" + w.loHost() + ":8931"
 	case "http":
-		w.origin = "http://mcp.example.com"
+		w.origin = "http://" + w.pick("mcp.example.com", "localhost.mcp.example.com", "127.0.0.1.mcp.example.com", "192.168.1.10:8080")
 	default:
 		w.origin = "https://mcp.example.com"
 	}
@@ -668,7 +675,7 @@ func c15NewWorld(s *c15Script, seed uint64) *c15World {
 	case "hdr_lo":
 		w.hdrURL = "http://" + w.loHost() + ":8940/prm-hdr"
 	case "hdr_http":
-		w.hdrURL = "http://meta.example.net/prm-hdr"
+		w.hdrURL = "http://" + w.notLoopback("meta.example.net") + "/prm-hdr"
 	case "hdr_js":
 		w.hdrURL = w.scriptURL(w.pick("js", "data"), "prm-hdr")
 	}
